@@ -468,9 +468,7 @@ class Flow(object):
         """Branch conditions that hold on every path on which definition ``d`` is still the current one at ``at``
         (``x = a`` ... ``if not ok(x): x = b`` ... use: ``a`` arrives only through the false branch of the test)."""
         from .cfg import expand_conds
-        if d.stmt is None or d.kind == 'entry':
-            return []
-        ck = ('fc', id(d.stmt), d.key, id(at) if at != 'exit' else 'exit')
+        ck = ('fc', id(d.stmt) if d.stmt is not None else 'entry', d.key, id(at) if at != 'exit' else 'exit')
         if ck in self._reach:
             return self._reach[ck]
         cfg = self.cfg
@@ -479,7 +477,10 @@ class Flow(object):
         for x in self.defs.get(d.key, []):
             def_nodes.update(self._nodes(x))
         avoid0 = def_nodes - at_nodes
-        srcs = [m for n in self._nodes(d) for m in cfg.succ[n] if (n, m) not in cfg.exc_edges or n in cfg.raise_nodes]
+        if d.kind == 'entry':
+            srcs = [cfg.entry]        # the value on entry (a parameter): paths from the top of the function
+        else:
+            srcs = [m for n in self._nodes(d) for m in cfg.succ[n] if (n, m) not in cfg.exc_edges or n in cfg.raise_nodes]
         fwd = cfg.reach(srcs, avoid=avoid0)
         out = []
         if at_nodes & fwd:
@@ -548,11 +549,11 @@ class Flow(object):
         out = []
         for d in ds:
             cs = list(_conds) + [c for c in (self.conds(d.stmt) if d.stmt is not None else []) if c not in _conds]
+            if len(ds) > 1:
+                cs = cs + [c for c in self.flow_conds(d, at) if c not in cs]
             if d.kind == 'entry':
                 out.append(Leaf(expr, at, cs))      # the parameter / the value on entry itself
                 continue
-            if len(ds) > 1:
-                cs = cs + [c for c in self.flow_conds(d, at) if c not in cs]
             v, vat = self.unpacked(d)
             if v is None:
                 out.append(Leaf(expr if d.value is None or d.kind != 'assign' else d.value, d.stmt, cs, opaque=True))
@@ -561,26 +562,26 @@ class Flow(object):
         return out
 
     def aliases(self, key):
-        """Texts that denote the same object as slot ``key`` from their assignment on: slots copied from it or it
-        was copied from by a plain ``a = b`` that is the only definition of ``a``."""
+        """Texts that denote the same object as slot ``key`` from their assignment on: a slot all of whose definitions are
+        plain copies ``a = b`` of one other slot is an alias of it (and the chained targets of one assignment of each other)."""
         out = {key}
         changed = True
         while changed:
             changed = False
             for k, ds in self.defs.items():
-                if len(ds) != 1 or ds[0].kind != 'assign' or ds[0].idx is not None:
+                if not ds or any(d.kind != 'assign' or d.idx is not None for d in ds):
                     continue
-                others = [d for d in ds if d is not ds[0]]
-                v = slot_key(ds[0].value) if ds[0].value is not None else None
+                srcs = set(slot_key(d.value) if d.value is not None else None for d in ds)
+                v = srcs.pop() if len(srcs) == 1 else None
                 sibs = set()
-                if isinstance(ds[0].stmt, ast.Assign) and len(ds[0].stmt.targets) > 1:
+                if len(ds) == 1 and isinstance(ds[0].stmt, ast.Assign) and len(ds[0].stmt.targets) > 1:
                     sibs = set(slot_key(t) for t in ds[0].stmt.targets) - {None}
-                for a, b in [(k, v)] + [(k, s) for s in sibs if s != k]:
+                for a, b in [(k, v)] + [(k, s_) for s_ in sibs if s_ != k]:
                     if b is None:
                         continue
-                    if (a in out) != (b in out) and not others:
+                    if (a in out) != (b in out):
                         # the source must not be re-defined after the copy
-                        if any(self._redefined_after(x, ds[0].stmt) for x in (a, b) if x != k):
+                        if any(self._redefined_after(x, d.stmt) for d in ds for x in (a, b) if x != k):
                             continue
                         out.update((a, b))
                         changed = True
